@@ -17,6 +17,10 @@ fn main() {
         c14::child(&args[2..]);
         return;
     }
+    if args.get(1).map(String::as_str) == Some("C14-child-read") {
+        c14::child_read();
+        return;
+    }
     let cli = common::cli();
     net::raise_fd_limit();
     match cli.id.as_str() {
